@@ -171,6 +171,18 @@ static int c18_run(Ctx &ctx) {
     KV c;
     int k = g::wpick({4, 3, 2, 2, 1});
     g::SOpts o;
+    if (g::coin(1, 15)) {
+      // a recognised setting padded to 200..1000 characters with one ill character anywhere, also far beyond the
+      // 384 characters any hash can have: "ill-charactered" is a statement about the whole string
+      Bytes t = g::valid_setting(g::any_method(), o).s;
+      size_t total = (size_t)g::oneof<int>({200, 383, 384, 385, 386, 400, 511, 600, 1000});
+      while (t.size() < total) t.push_back(g::PWSAFE_NODOLLAR[g::pick(0, (long long)sizeof(g::PWSAFE_NODOLLAR) - 2)]);
+      static const unsigned char BAD[] = {':', ';', '*', '!', '\\', ' ', '\t', '\n', 0x7f, 0x80, 0xff, 0x01};
+      size_t at = g::coin(2, 3) && t.size() > 384 ? (size_t)g::pick(384, (long long)t.size() - 1) : (size_t)g::pick(0, (long long)t.size() - 1);
+      t[at] = (char)BAD[g::pick(0, (long long)sizeof BAD - 1)];
+      c.set("s", t);
+      return c;
+    }
     switch (k) {
       case 0: c.set("s", g::raw_setting(400)); break;
       case 1: {
